@@ -668,6 +668,113 @@ theorem cuEval_eq_collocRow (trunc : K → ℤ) (xmin dx x : K) (ncells : ℕ) (
   · intro h; have := hper h; unfold cuNb; rw [h]; simp; omega
   · exact hw
 
+/-! ### translation invariance on uniform knots; circulance of the periodic collocation matrix -/
+
+theorem innerLoop_congr (left right left' right' : ℕ → K) (j : ℕ) :
+    ∀ (vs : List K) (r : ℕ) (s : K), r + vs.length ≤ j + 1 →
+      (∀ k, k ≤ j → left k = left' k) → (∀ k, k ≤ j → right k = right' k) →
+      innerLoop left right j r vs s = innerLoop left' right' j r vs s
+  | [], _, _, _, _, _ => rfl
+  | v :: vs, r, s, hlen, hl, hr => by
+    simp only [List.length_cons] at hlen
+    simp only [innerLoop]
+    rw [hl (j - r) (by omega), hr r (by omega)]
+    rw [innerLoop_congr left right left' right' j vs (r + 1) _ (by omega) hl hr]
+
+theorem levels_congr (left right left' right' : ℕ → K) (p : ℕ)
+    (hl : ∀ k, k < p → left k = left' k) (hr : ∀ k, k < p → right k = right' k) :
+    levels left right p = levels left' right' p := by
+  induction p with
+  | zero => rfl
+  | succ p ih =>
+    simp only [levels]
+    rw [ih (fun k hk => hl k (by omega)) (fun k hk => hr k (by omega))]
+    apply innerLoop_congr
+    · rw [levels_length]; omega
+    · intro k hk; exact hl k (by omega)
+    · intro k hk; exact hr k (by omega)
+
+/-- translation invariance on uniform knots: the basis values at `x + m·h` in cell `span + m` are those at `x` in cell `span` -/
+theorem basisFuns_uniform_shift (a h : K) (t : ℕ → K) (ht : ∀ i, t i = a + (i : K) * h) (p span m : ℕ) (x : K)
+    (hspan : p ≤ span + 1) :
+    basisFuns t p (x + (m : K) * h) (span + m) = basisFuns t p x span := by
+  unfold basisFuns
+  apply levels_congr
+  · intro k hk
+    unfold leftOf
+    rw [ht, ht]
+    have e : ((span + m - k : ℕ) : K) = ((span - k : ℕ) : K) + (m : K) := by
+      have : span + m - k = span - k + m := by omega
+      rw [this]; push_cast; ring
+    rw [e]; ring
+  · intro k _
+    unfold rightOf
+    rw [ht, ht]
+    have : span + m + 1 + k = span + 1 + k + m := by omega
+    rw [this]; push_cast; ring
+
+theorem succ_mod_inj (nb r j : ℕ) (hr : r < nb) (hj : j < nb) : (r + 1) % nb = (j + 1) % nb ↔ r = j := by
+  constructor
+  · intro h
+    by_cases h1 : r + 1 < nb <;> by_cases h2 : j + 1 < nb
+    · rw [Nat.mod_eq_of_lt h1, Nat.mod_eq_of_lt h2] at h; omega
+    · have : j + 1 = nb := by omega
+      rw [Nat.mod_eq_of_lt h1, this, Nat.mod_self] at h; omega
+    · have : r + 1 = nb := by omega
+      rw [Nat.mod_eq_of_lt h2, this, Nat.mod_self] at h; omega
+    · omega
+  · intro h; rw [h]
+
+/-- shifting the span by one shifts the periodic columns by one -/
+theorem rowOf_shift (nb p span : ℕ) (hnb : 0 < nb) (hp : p ≤ span) (basis : List K) (j : ℕ) (hj : j < nb) :
+    rowOf true nb p (span + 1) basis ((j + 1) % nb) = rowOf true nb p span basis j := by
+  unfold rowOf
+  congr 1
+  apply List.map_congr_left
+  intro bs _
+  unfold colIdx
+  simp only [if_true]
+  have e : span + 1 - p + bs.2 = (span - p + bs.2) + 1 := by omega
+  rw [e]
+  have key : ((span - p + bs.2 + 1) % nb = (j + 1) % nb) ↔ ((span - p + bs.2) % nb = j) := by
+    rw [← Nat.mod_add_mod (span - p + bs.2) nb 1]
+    exact succ_mod_inj nb _ j (Nat.mod_lt _ hnb) hj
+  by_cases hc : (span - p + bs.2) % nb = j
+  · rw [if_pos hc, if_pos (key.mpr hc)]
+  · rw [if_neg hc, if_neg (fun h => hc (key.mp h))]
+
+/-- the same row read `nb` spans earlier (the seam): columns are taken mod `nb` -/
+theorem rowOf_sub_period (nb p span : ℕ) (hp : p + nb ≤ span) (basis : List K) (j : ℕ) :
+    rowOf true nb p (span - nb) basis j = rowOf true nb p span basis j := by
+  unfold rowOf
+  congr 1
+  apply List.map_congr_left
+  intro bs _
+  unfold colIdx
+  simp only [if_true]
+  have e : span - p + bs.2 = (span - nb - p + bs.2) + nb := by omega
+  rw [e, Nat.add_mod_right]
+
+/-- **circulance of the collocation matrix on uniform periodic knots**, given where the span search lands:
+    knots `t_i = a + i·h`, points `x_i = x₀ + i·h` found in cell `s₀ + i` (`i < n`) -/
+theorem uniform_periodic_circulant (a h x0 : K) (t : ℕ → K) (ht : ∀ i, t i = a + (i : K) * h) (n p s0 : ℕ) (hn : 0 < n)
+    (hs0 : p ≤ s0) (M : ℕ → ℕ → K)
+    (hM : ∀ i, i < n → M i = rowOf true n p (s0 + i) (basisFuns t p (x0 + (i : K) * h) (s0 + i))) :
+    ∀ i j, i < n → j < n → M ((i + 1) % n) ((j + 1) % n) = M i j := by
+  intro i j hi hj
+  have hB : ∀ m : ℕ, basisFuns t p (x0 + (m : K) * h) (s0 + m) = basisFuns t p x0 s0 :=
+    fun m => basisFuns_uniform_shift a h t ht p s0 m x0 (by omega)
+  rw [hM i hi, hM _ (Nat.mod_lt _ hn), hB, hB]
+  by_cases h1 : i + 1 < n
+  · rw [Nat.mod_eq_of_lt h1]
+    exact rowOf_shift n p (s0 + i) hn (by omega) _ j hj
+  · have hin : i + 1 = n := by omega
+    rw [hin, Nat.mod_self, Nat.add_zero]
+    have := rowOf_shift (K := K) n p (s0 + i) hn (by omega) (basisFuns t p x0 s0) j hj
+    rw [← this, ← rowOf_sub_period n p (s0 + i + 1) (by omega)]
+    congr 2
+    omega
+
 /-! ### a concrete instance (non-vacuity of the C08/C09 hypotheses): degree 2, periodic, 3 uniform cells on [0,3] -/
 namespace Inst
 def S : Space ℚ := ⟨fun i => (i : ℚ) - 2, 8, 2, true⟩
